@@ -452,16 +452,50 @@ def _ifexp(test, a, b):
     return ast.copy_location(ast.IfExp(test=test, body=a, orelse=b), test)
 
 
-def return_expr(fi_or_node):
+def _subst_locals(e, env):
+    if not env:
+        return e
+
+    class T(ast.NodeTransformer):
+        def visit_Name(self, n):
+            if isinstance(n.ctx, ast.Load) and n.id in env:
+                return ast.parse(ast.unparse(env[n.id]), mode='eval').body
+            return n
+    return T().visit(ast.parse(ast.unparse(e), mode='eval').body)
+
+
+def return_expr(fi_or_node, inline_locals=False):
     """The function as ONE returned expression when its body is a tree of if/return (guard clauses, if/else returns,
-    `if c: return False` / `return True`): spellings of one value.  None when the body does anything else."""
+    `if c: return False` / `return True`): spellings of one value.  With inline_locals, plain `name = expr` statements
+    in between are substituted into what follows (the caller vouches that the right-hand sides are pure).
+    None when the body does anything else."""
     node = getattr(fi_or_node, 'node', fi_or_node)
     body = [s for s in node.body if not (isinstance(s, ast.Expr) and isinstance(s.value, ast.Constant))]
 
-    def conv(stmts):
+    def conv(stmts, env=None):
+        env = dict(env or {})
+        while inline_locals and stmts and isinstance(stmts[0], ast.Assign) and len(stmts[0].targets) == 1 and isinstance(stmts[0].targets[0], ast.Name):
+            env[stmts[0].targets[0].id] = _subst_locals(stmts[0].value, env)
+            stmts = stmts[1:]
+        if env:
+            r_ = conv_plain(stmts, env)
+            return r_
+        return conv_plain(stmts, env)
+
+    def conv_plain(stmts, env):
         if not stmts:
             return None
         s = stmts[0]
+        if env and isinstance(s, ast.Return):
+            return _subst_locals(s.value, env) if s.value is not None else ast.Constant(value=None)
+        if env and isinstance(s, ast.If):
+            a = conv(list(s.body), env)
+            if a is None:
+                return None
+            b = conv(list(s.orelse), env) if s.orelse else conv(list(stmts[1:]), env)
+            if b is None:
+                return None
+            return _ifexp(_subst_locals(s.test, env), a, b)
         if isinstance(s, ast.Return):
             return s.value if s.value is not None else ast.copy_location(ast.Constant(value=None), s)
         if isinstance(s, ast.If):
